@@ -64,19 +64,46 @@ Theorem C27_hashed_data_is_byte_range_data :
 Proof. exact hashed_data_is_byte_range_data. Qed.
 Print Assumptions C27_hashed_data_is_byte_range_data.
 
+(* "unmodified" ==> a digest of the /ByteRange bytes was compared, for all four combinations of
+   (CMS content encapsulated?, signed attributes present?) *)
 Theorem C27_p7_unmodified_hashes_byte_range :
-  forall attrOK sha1eq sigOK cmsContent data,
-  p7Verdict attrOK sha1eq sigOK cmsContent data = TFalse ->
-  sigOK = true /\
-  ((cmsContent = [] /\ attrOK data = true) \/
-   (cmsContent <> [] /\ sha1eq data cmsContent = true /\ attrOK cmsContent = true)).
+  forall attrOK sha1eq hasAttrs sigAttrsOK sigContentOK cmsContent data,
+  p7Verdict attrOK sha1eq hasAttrs sigAttrsOK sigContentOK cmsContent data = TFalse ->
+  (cmsContent = [] /\ hasAttrs = true /\ sigAttrsOK = true /\ attrOK data = true) \/
+  (cmsContent <> [] /\ hasAttrs = true /\ sigAttrsOK = true /\
+     sha1eq data cmsContent = true /\ attrOK cmsContent = true) \/
+  (cmsContent <> [] /\ hasAttrs = false /\ sigContentOK cmsContent = true /\
+     sha1eq data cmsContent = true).
 Proof. exact p7_unmodified_hashes_byte_range. Qed.
 Print Assumptions C27_p7_unmodified_hashes_byte_range.
 
+Theorem C27_p7_document_unmodified_digest_compared :
+  forall attrOK sha1eq hasAttrs sigAttrsOK sigContentOK cmsContent fsize f arr contents increment dts sf,
+  docModified (p7Verdict attrOK sha1eq hasAttrs sigAttrsOK sigContentOK cmsContent)
+              fsize f arr contents increment dts sf = TFalse ->
+  exists data, signedData f arr contents = Ok data /\
+               (attrOK data = true \/ sha1eq data cmsContent = true).
+Proof. exact p7_document_unmodified_digest_compared. Qed.
+Print Assumptions C27_p7_document_unmodified_digest_compared.
+
+Theorem C27_p7_detached_without_attributes_never_unmodified :
+  forall attrOK sha1eq sigAttrsOK sigContentOK data,
+  p7Verdict attrOK sha1eq false sigAttrsOK sigContentOK [] data <> TFalse.
+Proof. exact p7_detached_without_attributes_never_unmodified. Qed.
+Print Assumptions C27_p7_detached_without_attributes_never_unmodified.
+
+(* adbe.x509.rsa_sha1 *)
+Theorem C27_p1_document_unmodified_signature_over_byte_range :
+  forall sigMatches fsize f arr contents increment dts sf,
+  docModified (p1Verdict sigMatches) fsize f arr contents increment dts sf = TFalse ->
+  exists data, signedData f arr contents = Ok data /\ sigMatches data = true.
+Proof. exact p1_document_unmodified_signature_over_byte_range. Qed.
+Print Assumptions C27_p1_document_unmodified_signature_over_byte_range.
+
 (* no eContent: unmodified ==> the digest of signedData(file, ByteRange) is the signed digest *)
 Theorem C27_detached_unmodified_hashes_signed_data :
-  forall attrOK sha1eq sigOK fsize f arr contents increment dts,
-  docModified (p7Verdict attrOK sha1eq sigOK []) fsize f arr contents increment dts = TFalse ->
+  forall attrOK sha1eq hasAttrs sigAttrsOK sigContentOK fsize f arr contents increment dts sf,
+  docModified (p7Verdict attrOK sha1eq hasAttrs sigAttrsOK sigContentOK []) fsize f arr contents increment dts sf = TFalse ->
   exists data, signedData f arr contents = Ok data /\ attrOK data = true.
 Proof. exact detached_unmodified_hashes_signed_data. Qed.
 Print Assumptions C27_detached_unmodified_hashes_signed_data.
@@ -84,10 +111,10 @@ Print Assumptions C27_detached_unmodified_hashes_signed_data.
 (* forged eContent: the originally signed bytes D injected as CMS content never yield
    "unmodified", for any file, ranges, signature outcome and any 20-byte-valued SHA1 *)
 Theorem C27_forged_econtent_document_not_unmodified :
-  forall (sha1 : list N -> list N) attrOK sigOK D fsize f arr contents increment dts,
+  forall (sha1 : list N -> list N) attrOK hasAttrs sigAttrsOK sigContentOK D fsize f arr contents increment dts sf,
   (forall x, length (sha1 x) = 20%nat) -> length D <> 20%nat -> D <> [] ->
-  docModified (p7Verdict attrOK (fun d c => eqbList (sha1 d) c) sigOK D)
-              fsize f arr contents increment dts <> TFalse.
+  docModified (p7Verdict attrOK (fun d c => eqbList (sha1 d) c) hasAttrs sigAttrsOK sigContentOK D)
+              fsize f arr contents increment dts sf <> TFalse.
 Proof. exact forged_econtent_document_not_unmodified. Qed.
 Print Assumptions C27_forged_econtent_document_not_unmodified.
 
